@@ -20,7 +20,9 @@ func NewIndividualNameAndSex(individual *gedcom.IndividualNode) *IndividualNameA
 }
 
 func (c *IndividualNameAndSex) WriteHTMLTo(w io.Writer) (int64, error) {
-	primaryName := c.individual.Names()[0]
+	// Name() is nil when the individual does not have a name. All of the parts
+	// of a nil name are empty.
+	primaryName := c.individual.Name()
 	title := primaryName.Title()
 	prefix := primaryName.Prefix()
 	name := primaryName.GivenName()
